@@ -73,3 +73,8 @@ add("C09", "E2",
     "From every enumerated base expression (flat and deep) all index histories of length 0..4 over 0..n_vars+1 are explored; in every state the variable list equals the antiderivative's and the same slice evaluates; partial_iter / partial_iter_relaxed of the history equals the sequential partials, partial_nth equals repeated partial, order zero is the identity, mixed partials agree in either order (structurally, exactly over Q, or within rounding bounds); out-of-range indices are rejected by partial, partial_nth and partial_iter before a single number is constructed.",
     "Trusted: stateright's visited-set bookkeeping; work is observed through a counter on From<u8>/From<f32> of the harness data types.",
     "DESIGN.md §3 C09")
+add("C18", "E1",
+    "bounded-exhaustive enumeration of well-typed value-table trees (mixed int/float arithmetic, elementary functions, nested `f if c else g` with arithmetic around) x variable index, compared with branch-wise forward-mode jets over the reference interpreter of the value type",
+    "Every enumerated tree is differentiated with parse_val(text).partial(i) and evaluated at float-valued points away from every branch boundary; the reference evaluates the comparison conditions with the C16 reference interpreter, selects the branch and propagates jets (with rounding bounds) through the selected branch only; comparison conditions keep their value, `if`/`else` are differentiated per operand.",
+    "Trusted: harness/src/valref.rs and the jet rules; points near a boundary (1e-3), with non-numeric reference or extreme magnitudes are skipped and counted. Conditions without a variable are outside the property's quantifier and not generated.",
+    "DESIGN.md §3 C18")
